@@ -232,7 +232,10 @@ func (g *Gen) Struct(depth int) reflect.Type {
 }
 
 var genStrings = []string{"", "a", "hello world", "\"q\"", "back\\slash", "tab\there", "nl\n", "<html>&amp;", "é", "日本語", "  ", "\x00\x01\x1f", "\x7f", "😀", "a/b", "\b\f", "1", "true", "null", " ", strings.Repeat("x", 70)}
-var genBadStrings = []string{"\xff", "a\xc3", "\xed\xa0\x80", "\xf4\x90\x80\x80", "ok\x80ok"}
+var genBadStrings = []string{"\xff", "a\xc3", "\xed\xa0\x80", "\xf4\x90\x80\x80", "ok\x80ok",
+	// ill-formed bytes at every offset around the encoder's 8-byte scanning window
+	"abcdefgh\xff", "abcdefg\xff", "abcdefghij\xe2\x80", "0123456789abcdef\x80", "0123456789abcde\xc3", "abcdefghijklmnopq\xf0\x9f",
+	"\xffabcdefgh", "abcdefghi\xed\xa0\x80jk", "abcdefgh\xe2\x80\xa8", "abcdefgh\u2028"}
 
 func (g *Gen) Int(bits int) int64 {
 	r := g.R
@@ -478,4 +481,100 @@ func genTypeString(t reflect.Type) string {
 		s = s[:300] + "…"
 	}
 	return s
+}
+
+// ---- field matrix ----------------------------------------------------------------------------
+// The interpreters have one opcode per (field kind, position in the struct, omitempty / string,
+// pointer-ness). FieldMatrix enumerates that product systematically: every field kind in every
+// position (only field, first, middle, last), with every tag combination, holding each of its
+// characteristic values (zero, nil, empty but non-nil, ordinary, extreme).
+
+type matrixKind struct {
+	t    reflect.Type
+	vals []interface{}
+}
+
+func matrixKinds() []matrixKind {
+	i7, s7, f7, b7 := 7, "s", 1.5, true
+	var nilIface interface{}
+	num := stdjson.Number("12")
+	emptyNum := stdjson.Number("")
+	return []matrixKind{
+		{reflect.TypeOf(false), []interface{}{false, true}},
+		{reflect.TypeOf(int(0)), []interface{}{0, -5, math.MaxInt64}},
+		{reflect.TypeOf(int8(0)), []interface{}{int8(0), int8(-128)}},
+		{reflect.TypeOf(int16(0)), []interface{}{int16(0), int16(300)}},
+		{reflect.TypeOf(int32(0)), []interface{}{int32(0), int32(-70000)}},
+		{reflect.TypeOf(int64(0)), []interface{}{int64(0), int64(math.MinInt64)}},
+		{reflect.TypeOf(uint(0)), []interface{}{uint(0), uint(math.MaxUint64)}},
+		{reflect.TypeOf(uint8(0)), []interface{}{uint8(0), uint8(255)}},
+		{reflect.TypeOf(uint16(0)), []interface{}{uint16(0), uint16(65535)}},
+		{reflect.TypeOf(uint32(0)), []interface{}{uint32(0), uint32(1 << 31)}},
+		{reflect.TypeOf(uint64(0)), []interface{}{uint64(0), uint64(1 << 63)}},
+		{reflect.TypeOf(float32(0)), []interface{}{float32(0), float32(-0.25), float32(1e-7)}},
+		{reflect.TypeOf(float64(0)), []interface{}{float64(0), math.Copysign(0, -1), 1e21, 1e-7}},
+		{reflect.TypeOf(""), []interface{}{"", "x", "<é\n\"", "12", "true"}},
+		{reflect.TypeOf([]byte(nil)), []interface{}{[]byte(nil), []byte{}, []byte("ab")}},
+		{reflect.TypeOf([]int(nil)), []interface{}{[]int(nil), []int{}, []int{1, 2}}},
+		{reflect.TypeOf([]string(nil)), []interface{}{[]string(nil), []string{}, []string{"a"}}},
+		{reflect.TypeOf([2]int{}), []interface{}{[2]int{}, [2]int{1, 2}}},
+		{reflect.TypeOf([0]int{}), []interface{}{[0]int{}}},
+		{reflect.TypeOf(map[string]int(nil)), []interface{}{map[string]int(nil), map[string]int{}, map[string]int{"k": 1, "a": 2}}},
+		{reflect.TypeOf(map[int]string(nil)), []interface{}{map[int]string(nil), map[int]string{}, map[int]string{-1: "m"}}},
+		{reflect.TypeOf((*int)(nil)), []interface{}{(*int)(nil), &i7}},
+		{reflect.TypeOf((*string)(nil)), []interface{}{(*string)(nil), &s7}},
+		{reflect.TypeOf((*float64)(nil)), []interface{}{(*float64)(nil), &f7}},
+		{reflect.TypeOf((*bool)(nil)), []interface{}{(*bool)(nil), &b7}},
+		{reflect.TypeOf((*GEmb1)(nil)), []interface{}{(*GEmb1)(nil), &GEmb1{P: 1}}},
+		{reflect.TypeOf((*[]int)(nil)), []interface{}{(*[]int)(nil), &[]int{}, &[]int{3}}},
+		{reflect.TypeOf((*map[string]int)(nil)), []interface{}{(*map[string]int)(nil), &map[string]int{"z": 1}}},
+		{genIface, []interface{}{nilIface, 5, "s", []interface{}{}, map[string]interface{}{}, GEmb1{P: 2}, &GEmb1{}, (*int)(nil)}},
+		{reflect.TypeOf(GEmb1{}), []interface{}{GEmb1{}, GEmb1{P: 3, Q: "q"}}},
+		{reflect.TypeOf(struct{}{}), []interface{}{struct{}{}}},
+		{reflect.TypeOf(stdjson.Number("")), []interface{}{emptyNum, num}},
+		{reflect.TypeOf(stdjson.RawMessage(nil)), []interface{}{stdjson.RawMessage(nil), stdjson.RawMessage(`{"r": [1]}`)}},
+		{reflect.TypeOf(time.Time{}), []interface{}{time.Time{}, time.Unix(1, 5).UTC()}},
+		{reflect.TypeOf(GMV{}), []interface{}{GMV{}, GMV{X: 4}}},
+		{reflect.TypeOf((*GMV)(nil)), []interface{}{(*GMV)(nil), &GMV{X: 4}}},
+		{reflect.TypeOf(GTV{}), []interface{}{GTV{}, GTV{S: "t"}}},
+		{reflect.TypeOf((*GTV)(nil)), []interface{}{(*GTV)(nil), &GTV{S: "t"}}},
+		{reflect.TypeOf(GNamedString("")), []interface{}{GNamedString(""), GNamedString("n")}},
+		{reflect.TypeOf(GNamedSlice(nil)), []interface{}{GNamedSlice(nil), GNamedSlice{}, GNamedSlice{1}}},
+	}
+}
+
+var matrixTags = []string{"", `json:"f,omitempty"`, `json:"f,string"`, `json:"f,omitempty,string"`, `json:"f"`}
+
+// FieldMatrix calls f with every struct value of the matrix (several thousand, deterministic).
+func FieldMatrix(f func(t reflect.Type, v reflect.Value)) {
+	intT := reflect.TypeOf(0)
+	strT := reflect.TypeOf("")
+	for _, k := range matrixKinds() {
+		for _, tag := range matrixTags {
+			for pos := 0; pos < 4; pos++ {
+				var fields []reflect.StructField
+				target := 0
+				switch pos {
+				case 0: // only
+					fields = []reflect.StructField{{Name: "F", Type: k.t, Tag: reflect.StructTag(tag)}}
+				case 1: // first
+					fields = []reflect.StructField{{Name: "F", Type: k.t, Tag: reflect.StructTag(tag)}, {Name: "Z", Type: intT}}
+				case 2: // middle
+					fields = []reflect.StructField{{Name: "A", Type: strT}, {Name: "F", Type: k.t, Tag: reflect.StructTag(tag)}, {Name: "Z", Type: intT}}
+					target = 1
+				default: // last
+					fields = []reflect.StructField{{Name: "A", Type: strT}, {Name: "F", Type: k.t, Tag: reflect.StructTag(tag)}}
+					target = 1
+				}
+				t := reflect.StructOf(fields)
+				for _, val := range k.vals {
+					v := reflect.New(t).Elem()
+					if val != nil {
+						v.Field(target).Set(reflect.ValueOf(val))
+					}
+					f(t, v)
+				}
+			}
+		}
+	}
 }
